@@ -27,13 +27,14 @@ type iterFam struct {
 	recur           bool
 	recurBeforeSlot bool
 	body            []bodyStmt // kind "gen"
+	hasK            bool       // kind "gen": the body declares |i, k: 7|
 }
 
 func (f iterFam) source() string {
 	s, l, d := f.slot, f.lim, f.step
 	switch f.kind {
 	case "gen":
-		return genSource(f.body)
+		return genSource(f.body, f.hasK)
 	case "guard":
 		return fmt.Sprintf("<{|i| S(%d); yield i if i < %d; recur(i + %d)}>", s, l, d)
 	case "noguard":
@@ -75,11 +76,29 @@ type bodyStmt struct {
 	valSlot   int    // yield: >0 -> the value expression also calls S(valSlot) (adds 0)
 	guard     string // yield: "", "<", ">="
 	glim      int64
-	guardSlot int   // yield: >0 -> the guard also calls S(guardSlot) (adds 0)
-	d         int64 // recur(i + d)
+	guardSlot int    // yield: >0 -> the guard also calls S(guardSlot) (adds 0)
+	d         int64  // recur(i + d)
+	kmode     string // recur, bodies with the keyword parameter k: "omit", "carry", "nil", "const", "flip"
+	kconst    int64
+	useK      bool // yield: the value adds (1000 if k == nil else k)
 }
 
-func genBody(t *tape.Tape, base int) []bodyStmt {
+// kState is the keyword argument `k` of a generated body that declares `|i, k: 7|`.
+type kState struct {
+	isNil bool
+	v     int64
+}
+
+const genKDefault = 7
+
+func (k kState) term() int64 {
+	if k.isNil {
+		return 1000
+	}
+	return k.v
+}
+
+func genBody(t *tape.Tape, base int, hasK bool) []bodyStmt {
 	var b []bodyStmt
 	id := base
 	n := 2 + t.Intn(4)
@@ -105,10 +124,16 @@ func genBody(t *tape.Tape, base int) []bodyStmt {
 				id++
 				y.guardSlot = id
 			}
+			y.useK = hasK && t.Chance(2, 3)
 			b = append(b, y)
 			haveYield = true
 		default:
-			b = append(b, bodyStmt{kind: "recur", d: int64(1 + t.Intn(3))})
+			r := bodyStmt{kind: "recur", d: int64(1 + t.Intn(3))}
+			if hasK {
+				r.kmode = []string{"omit", "carry", "nil", "const", "flip"}[t.Intn(5)]
+				r.kconst = int64(2 + t.Intn(5))
+			}
+			b = append(b, r)
 			haveRecur = true
 		}
 	}
@@ -116,12 +141,17 @@ func genBody(t *tape.Tape, base int) []bodyStmt {
 		b = append(b, bodyStmt{kind: "yield", mul: 1, guard: "<", glim: int64(2 + t.Intn(5))})
 	}
 	if !haveRecur && t.Chance(4, 5) {
-		b = append(b, bodyStmt{kind: "recur", d: int64(1 + t.Intn(2))})
+		r := bodyStmt{kind: "recur", d: int64(1 + t.Intn(2))}
+		if hasK {
+			r.kmode = []string{"omit", "carry", "nil", "const", "flip"}[t.Intn(5)]
+			r.kconst = int64(2 + t.Intn(5))
+		}
+		b = append(b, r)
 	}
 	return b
 }
 
-func genSource(b []bodyStmt) string {
+func genSource(b []bodyStmt, hasK bool) string {
 	var parts []string
 	for _, st := range b {
 		switch st.kind {
@@ -131,6 +161,9 @@ func genSource(b []bodyStmt) string {
 			v := fmt.Sprintf("(i * %d + %d)", st.mul, st.add)
 			if st.valSlot > 0 {
 				v = fmt.Sprintf("(i * %d + %d + S(%d) - %d)", st.mul, st.add, st.valSlot, st.valSlot)
+			}
+			if st.useK {
+				v = "(" + v + " + (1000 if k == nil else k))"
 			}
 			y := "yield " + v
 			if st.guard != "" {
@@ -142,8 +175,22 @@ func genSource(b []bodyStmt) string {
 			}
 			parts = append(parts, y)
 		default:
-			parts = append(parts, fmt.Sprintf("recur(i + %d)", st.d))
+			kw := ""
+			switch st.kmode {
+			case "carry":
+				kw = ", k: k"
+			case "nil":
+				kw = ", k: nil"
+			case "const":
+				kw = fmt.Sprintf(", k: %d", st.kconst)
+			case "flip":
+				kw = fmt.Sprintf(", k: (%d if k == nil else nil)", st.kconst)
+			}
+			parts = append(parts, fmt.Sprintf("recur(i + %d%s)", st.d, kw))
 		}
+	}
+	if hasK {
+		return fmt.Sprintf("<{|i, k: %d| ", genKDefault) + strings.Join(parts, "; ") + "}>"
 	}
 	return "<{|i| " + strings.Join(parts, "; ") + "}>"
 }
@@ -153,8 +200,8 @@ func genSource(b []bodyStmt) string {
 // first yield reached supplies the value; the most recent recur supplies the next argument
 // (also when the activation ends in an error afterwards). faultIdx: the slot invocation
 // (counted within this activation) that raises, or -1.
-func genNext(b []bodyStmt, i int64, faultIdx int) (val int64, stop, errored bool, ni int64, trace []int) {
-	ni = i
+func genNext(b []bodyStmt, i int64, k kState, faultIdx int) (val int64, stop, errored bool, ni int64, nk kState, trace []int) {
+	ni, nk = i, k
 	yielded := false
 	call := func(id int) bool {
 		trace = append(trace, id)
@@ -164,32 +211,51 @@ func genNext(b []bodyStmt, i int64, faultIdx int) (val int64, stop, errored bool
 		switch st.kind {
 		case "slot":
 			if call(st.slot) {
-				return 0, false, true, ni, trace
+				return 0, false, true, ni, nk, trace
 			}
 		case "yield":
 			if st.guard != "" {
 				if st.guardSlot > 0 && call(st.guardSlot) {
-					return 0, false, true, ni, trace
+					return 0, false, true, ni, nk, trace
 				}
 				ok := i < st.glim
 				if st.guard == ">=" {
 					ok = i >= st.glim
 				}
 				if !ok {
-					return 0, true, false, ni, trace
+					return 0, true, false, ni, nk, trace
 				}
 			}
 			if st.valSlot > 0 && call(st.valSlot) {
-				return 0, false, true, ni, trace
+				return 0, false, true, ni, nk, trace
 			}
 			if !yielded {
 				yielded, val = true, i*st.mul+st.add
+				if st.useK {
+					val += k.term()
+				}
 			}
 		default:
 			ni = i + st.d
+			switch st.kmode {
+			case "omit":
+				nk = kState{v: genKDefault} // not given: the declared default
+			case "carry":
+				nk = k
+			case "nil":
+				nk = kState{isNil: true} // nil given is nil, not "not given"
+			case "const":
+				nk = kState{v: st.kconst}
+			case "flip":
+				if k.isNil {
+					nk = kState{v: st.kconst}
+				} else {
+					nk = kState{isNil: true}
+				}
+			}
 		}
 	}
-	return val, false, false, ni, trace
+	return val, false, false, ni, nk, trace
 }
 
 func traceIDs(r harness.Result) []int {
@@ -205,6 +271,7 @@ type iterState struct {
 	i    int64
 	step int64
 	j    string // second argument (Inspect text; "nil" when not given)
+	k    kState // keyword argument of generated bodies
 }
 
 // step models one `next`: value, stop?, and the successor state. fault: the slot raises.
@@ -389,7 +456,8 @@ func (c *c14Check) Run(seed, run uint64, rec []uint32, st Stats, only *Viol) []V
 		f.recur = k != "norecur"
 		f.recurBeforeSlot = k == "slotafterrecur"
 		if k == "gen" {
-			f.body = genBody(t, 100*(i+1))
+			f.hasK = t.Chance(1, 3)
+			f.body = genBody(t, 100*(i+1), f.hasK)
 		}
 		fams[i] = f
 		s.Families[k]++
@@ -451,10 +519,20 @@ func (c *c14Check) Run(seed, run uint64, rec []uint32, st Stats, only *Viol) []V
 			name := fmt.Sprintf("h%d", t.Intn(4))
 			arg := int64(t.Intn(5))
 			line := fmt.Sprintf("%s := g%d.new(%d)", name, fi, arg)
-			stt := iterState{fam: fi, i: arg, step: f.step, j: "nil"}
+			stt := iterState{fam: fi, i: arg, step: f.step, j: "nil", k: kState{v: genKDefault}}
 			if f.kind == "twoparam" && t.Chance(1, 2) {
 				stt.j = fmt.Sprint(40 + t.Intn(9))
 				line = fmt.Sprintf("%s := g%d.new(%d, %s)", name, fi, arg, stt.j)
+			}
+			if f.hasK {
+				switch t.Intn(3) {
+				case 1:
+					stt.k = kState{v: int64(20 + t.Intn(5))}
+					line = fmt.Sprintf("%s := g%d.new(%d, k: %d)", name, fi, arg, stt.k.v)
+				case 2:
+					stt.k = kState{isNil: true}
+					line = fmt.Sprintf("%s := g%d.new(%d, k: nil)", name, fi, arg)
+				}
 			}
 			if f.kw && t.Chance(1, 2) {
 				stt.step = int64(1 + t.Intn(3))
@@ -484,7 +562,7 @@ func (c *c14Check) Run(seed, run uint64, rec []uint32, st Stats, only *Viol) []V
 				fail("new-from-handle", f.kind, "error", "an iterator", describe(r))
 				break
 			}
-			handles = append(handles, iterState{fam: h.fam, i: arg, step: f.step, j: "nil"})
+			handles = append(handles, iterState{fam: h.fam, i: arg, step: f.step, j: "nil", k: kState{v: genKDefault}})
 			bind(name, len(handles)-1)
 		case 2: // next, possibly with the body's slot raising
 			name := pickName()
@@ -506,8 +584,8 @@ func (c *c14Check) Run(seed, run uint64, rec []uint32, st Stats, only *Viol) []V
 			s.Ops["next"]++
 			inter = append(inter, fmt.Sprintf("n%d", hi))
 			if f.kind == "gen" {
-				val, stop, errored, ni, trace := genNext(f.body, h.i, faultIdx)
-				h.i = ni
+				val, stop, errored, ni, nk, trace := genNext(f.body, h.i, h.k, faultIdx)
+				h.i, h.k = ni, nk
 				handles[hi] = h
 				if got := traceIDs(r); fmt.Sprint(got) != fmt.Sprint(trace) {
 					fail("next", f.kind, "evalcount", fmt.Sprintf("callee invocations %v (every statement of the body once, up to the one that ends the activation)", trace), fmt.Sprintf("%v; result %s", got, describe(r)))
@@ -560,16 +638,16 @@ func (c *c14Check) Run(seed, run uint64, rec []uint32, st Stats, only *Viol) []V
 			var genVals []int64
 			var genTrace []int
 			if f.kind == "gen" {
-				cur := h.i
+				cur, curK := h.i, h.k
 				for k := 0; k < 40; k++ {
-					v, stop, _, ni, tr := genNext(f.body, cur, -1)
+					v, stop, _, ni, nk, tr := genNext(f.body, cur, curK, -1)
 					genTrace = append(genTrace, tr...)
 					if stop {
 						genFinite = true
 						break
 					}
 					genVals = append(genVals, v)
-					cur = ni
+					cur, curK = ni, nk
 				}
 			}
 			if (f.kind == "gen" && !genFinite) || (f.kind != "gen" && !f.finite()) {
